@@ -251,21 +251,24 @@ func (x Expr) Has(data any) bool {
 					}
 				}
 			default:
-				if v, has = reflectGetWildOne(tv); has {
-					if int(fi) == len(x)-1 { // last one
+				if int(fi) == len(x)-1 { // last one
+					if _, has = reflectGetWildOne(tv); has {
 						return true
 					}
-					switch v.(type) {
-					case nil, bool, string, float64, float32,
-						int, uint, int8, int16, int32, int64, uint8, uint16, uint32, uint64,
-						gen.Bool, gen.Int, gen.Float, gen.String:
-					case map[string]any, []any, gen.Object, gen.Array, Keyed, Indexed:
-						stack = append(stack, v)
-					default:
-						if rt := reflect.TypeOf(v); rt != nil {
-							switch rt.Kind() {
-							case reflect.Ptr, reflect.Slice, reflect.Struct, reflect.Array, reflect.Map:
-								stack = append(stack, v)
+				} else {
+					for _, v = range reflectGetWild(tv) {
+						switch v.(type) {
+						case nil, bool, string, float64, float32,
+							int, uint, int8, int16, int32, int64, uint8, uint16, uint32, uint64,
+							gen.Bool, gen.Int, gen.Float, gen.String:
+						case map[string]any, []any, gen.Object, gen.Array, Keyed, Indexed:
+							stack = append(stack, v)
+						default:
+							if rt := reflect.TypeOf(v); rt != nil {
+								switch rt.Kind() {
+								case reflect.Ptr, reflect.Slice, reflect.Struct, reflect.Array, reflect.Map:
+									stack = append(stack, v)
+								}
 							}
 						}
 					}
